@@ -60,6 +60,10 @@ TxStep(acc, en, t, i) ==
                       \cup (IF t.srcLocal => Avail(en, t.src) THEN {} ELSE {<<"C16_SourceAvailable", t.id>>})
                       \cup (IF IsBatchDst(en, t) \/ t.idx = Get(gg.acc, <<t.src, t.dst>>, 0) + 1 THEN {} ELSE {<<"C02_InOrder", t.id>>})
                       \cup (IF XH(t) /\ Seen(gg, t.id) THEN {<<"C02_InOrder", t.id>>} ELSE {})
+                      \* the same request again (only an unordered destination lets it get this far) must not touch the
+                      \* status its transaction has reached
+                      \cup (IF t.gid = "" /\ t.id \in DOMAIN gg.st /\ gg.st[t.id] # (IF bf THEN "BEGIN_FAILURE" ELSE "BEGIN")
+                            THEN {<<"C04_Step", [id |-> t.id, from |-> gg.st[t.id], by |-> "REQ"]>>} ELSE {})
                       \cup (IF bf = ~DestOK(en, t) \/ t.dstChain = en.bxh THEN {} ELSE {<<"C16_DestGate", t.id>>}),
           d |-> acc.d \cup (IF t.srcLocal \/ SourceOK(en, t) THEN {} ELSE {<<"accepted from an unavailable hub", t.id>>}),
           nt |-> acc.nt]
